@@ -248,7 +248,9 @@ func (om *offsetManager) Commit() {
 }
 
 func (om *offsetManager) flushToBroker() {
+	verifHook("om.flush", om.group)
 	req := om.constructRequest()
+	verifHook("om.built", om.group, req)
 	if req == nil {
 		return
 	}
@@ -267,6 +269,7 @@ func (om *offsetManager) flushToBroker() {
 		return
 	}
 
+	verifHook("om.resp", om.group, req, resp)
 	om.handleResponse(broker, req, resp)
 }
 
